@@ -73,6 +73,11 @@ def posterior_errors(p, quick_offsets):
                 if len(set(lens.values())) != 1:
                     yield ("posterior:lengths:" + "+".join(k for k, v in lens.items() if v != n), f"posterior({det}) returned arrays of different lengths {lens}", det)
                     continue
+                if bl is not None:
+                    want_shape = np.shape(p.state.get_history("blobs", flat=True))[1:]
+                    if np.shape(bl)[1:] != want_shape:
+                        yield ("posterior:blob-shape", f"posterior({det}) returned blobs of shape {np.shape(bl)} although every stored particle carries a blob of shape {want_shape}", det)
+                        continue
                 if n == 0 or np.any(w < 0) or not np.all(np.isfinite(w)) or abs(float(w.sum()) - 1.0) > 1e-12 * max(1, n) + 1e-12:
                     yield ("posterior:weights", f"posterior({det}) weights are not a probability vector (n={n}, sum={w.sum()!r})", det)
                 if rs and not np.all(w == w[0]):
@@ -310,6 +315,11 @@ def plan(ctx):
     ctx.explore("two-samplers-interleaved", duo)
     from mc import session as _s2
     from mc.pipeline import LARGE
+    # thin supports (whole prior batches rejected and drawn again) with every blob layout: posterior() rows must still be whole records
+    thin = [{"kind": "pipe1", "cfg": dict(n_particles=npart, d=2, n_total=4 * npart, target=t, eval=ev, blob_form=bf, sample=k, clustering=False), "base": ctx.seed + b, "offsets": offs[:2]}
+            for npart in ((4, 12) if th else (4,)) for t in ("sliver", "hole") for ev in ("blobs", "poolobj_blobs") for bf in (None, "two", "vector", "matrix") for k in ("tpcn", "rwm") for b in ((0, 1, 2) if th else (0,))
+            if th or (ev == "blobs" and bf != "two") or (ev == "poolobj_blobs" and bf is None and k == "tpcn")]
+    ctx.explore("thin-support-and-blob-layouts", thin)
     ctx.explore("large-scopes", [{"kind": "pipe1", "cfg": c, "base": ctx.seed, "offsets": offs[:2]} for c in LARGE])
     ctx.explore("resume-with-other-options", [{"kind": "cross", "cfg": dict(n_particles=16, d=2, n_total=48, eval="scalar", clustering=False), "pair": list(pr), "base": ctx.seed + b} for pr in _s2.CROSS for b in ((0, 5) if th else (0,))])
     agg = ctx.explore("terminal-states", cases)
